@@ -141,10 +141,22 @@ def build(spec, RDMs):
         g = spec[dim]
         if g['by'] != 'default':
             d[desc_name(spec, dim)] = gen.as_desc(list(g['values']), g['container'])
+    if has_2d(spec):
+        # a descriptor may hold one row of numbers per item (a position, a searchlight centre)
+        rdm_desc['rctr'] = np.array(rows2d(RID0, r), dtype=float)
+        pat_desc['ppos'] = np.array(rows2d(CID0, c), dtype=float)
     obj = RDMs(vecs.copy(), dissimilarity_measure='test', descriptors={'subj': 'a'},
                rdm_descriptors=rdm_desc, pattern_descriptors=pat_desc)
     side = side_table(spec, vecs)
     return obj, side
+
+
+def has_2d(spec):
+    return (spec['n_rdm'] + 2 * spec['n_cond']) % 2 == 0
+
+
+def rows2d(base, n):
+    return [[float(base + i), float(3 * (base + i) % 7), float(-i)] for i in range(n)]
 
 
 def side_table(spec, vecs=None):
@@ -154,6 +166,9 @@ def side_table(spec, vecs=None):
           'index': list(range(r))}
     pd = {'_cid': [CID0 + j for j in range(c)], 'pother': list(spec['pother']),
           'index': list(range(c))}
+    if has_2d(spec):
+        rd['rctr'] = rows2d(RID0, r)
+        pd['ppos'] = rows2d(CID0, c)
     if spec['rdm']['by'] != 'default':
         rd[desc_name(spec, 'rdm')] = list(spec['rdm']['values'])
     if spec['pat']['by'] != 'default':
@@ -193,6 +208,12 @@ def _plain(x):
 
 
 def same(a, b):
+    if isinstance(a, (list, tuple, np.ndarray)) or isinstance(b, (list, tuple, np.ndarray)):
+        try:
+            a, b = np.asarray(a, dtype=float), np.asarray(b, dtype=float)
+        except (TypeError, ValueError):
+            return False
+        return a.shape == b.shape and bool(np.array_equal(a, b))
     a, b = _plain(a), _plain(b)
     if isinstance(a, str) != isinstance(b, str):
         return False
